@@ -15,3 +15,10 @@ Definition check_tifa (c : block * list issue * list nat) : bool :=
   let '(a, mine) := t_block b aempty in
   subset mine issues && subset issues mine && Nat.eqb (length mine) (length issues)
   && forallb (fun x => Bool.eqb (t_unused a x) (existsb (Nat.eqb x) unused)) (seq 0 4).
+
+(* programs with while loops: the model analyses the once-unrolled program; the re-read of the condition can repeat
+   an issue, so issues are compared as sets *)
+Definition check_tifa_set (c : block * list issue) : bool :=
+  let '(b, issues) := c in
+  let mine := snd (t_block b aempty) in
+  subset mine issues && subset issues mine.
